@@ -7,8 +7,44 @@ TRUSTED = ["C05 predicate check_c05 (Model/Checks.v): sequence of full-width hea
 ASSUMPTIONS = ["group keys sorted (hierarchically contiguous), level-specific labels (@A.. outer, @B.., @C..) so that a heading's level is recognisable"]
 
 
+def _contiguous(seq):
+    seen, prev = set(), object()
+    for x in seq:
+        if x != prev:
+            if x in seen:
+                return False
+            seen.add(x)
+            prev = x
+    return True
+
+
+def small_patterns():
+    """All hierarchically contiguous key patterns of 3 rows over two page_by levels with values {1, 2, divider} per level,
+    and of 4 rows over {1, divider}: the shapes in which a level is hidden by a divider and shown again."""
+    import itertools
+
+    out = []
+    for n, alpha in ((3, ("1", "2", "-")), (4, ("1", "-"))):
+        for pat in itertools.product(itertools.product(alpha, repeat=2), repeat=n):
+            if _contiguous([t[0] for t in pat]) and _contiguous(list(pat)):
+                out.append(pat)
+    return out
+
+
+_PATTERNS = small_patterns()
+
+
+def pattern_spec(pat, nrow):
+    lab = lambda lvl, v: "-----" if v == "-" else f"@{'AB'[lvl]}{v}"
+    rows = [[f"#{i}#", lab(0, a), lab(1, b), "x"] for i, (a, b) in enumerate(pat)]
+    return {"df": {"cols": ["id", "g0", "g1", "c0"], "rows": rows}, "body": {"page_by": ["g0", "g1"]}, "page": {"nrow": nrow},
+            "kind": "single", "strategy": "page_by", "header_mode": "default"}
+
+
 def generate(g, i):
     r = g.r
+    if i < _N_PATTERNS[0]:
+        return pattern_spec(_PATTERNS[_ORDER[i]], 12 if i % 3 else 4)
     strategy = r.choice(["page_by", "page_by", "page_by", "subline", "subline+page_by"])
     nrows = r.choice([1, 2, 3, 5, 8, 13, 21, 30])
     spec = g.single(strategy=strategy, nrows=nrows, header_mode=r.choice(["default", "explicit", "none", "no_colheader"]))
@@ -17,5 +53,15 @@ def generate(g, i):
     return spec
 
 
+_N_PATTERNS = [0]
+_ORDER = []
+
+
 def run(ctx):
-    return common.run_docprop(ctx, "c05", generate, None, n_quick=180, n_thorough=3000)
+    import random
+
+    order = list(range(len(_PATTERNS)))
+    random.Random(ctx["seed"] + 55).shuffle(order)
+    _ORDER[:] = order
+    _N_PATTERNS[0] = len(_PATTERNS) if ctx["tier"] != "quick" else min(len(_PATTERNS), 90)
+    return common.run_docprop(ctx, "c05", generate, None, n_quick=180 + 90, n_thorough=3000 + len(_PATTERNS))
